@@ -7,8 +7,8 @@ From stdpp Require Import strings gmap sets.
 From CG Require Import Model.Store Proofs.StoreProofs Gen.Gen_effects.
 Open Scope string_scope.
 
-(* obligation on the regenerated summaries: every listed function only writes to objects it allocated itself and
-   returns only such objects *)
+(* obligation on the regenerated summaries: every listed function only writes to objects it allocated itself (a
+   BlackBox or one of its pin sets is written only if the call made it) and returns only such objects *)
 Theorem C19_table_safe : table_safe table = true.
 Proof. vm_compute. reflexivity. Qed.
 Print Assumptions C19_table_safe.
@@ -19,14 +19,16 @@ Theorem C19_scope_listed :
 Proof. split_and!; [vm_compute; reflexivity|apply (bool_decide_unpack (NoDup (s_name <$> table))); vm_compute; exact I|reflexivity]. Qed.
 Print Assumptions C19_scope_listed.
 
-(* the full statement, over the model: for every listed function, every store, every choice of argument objects
+(* BlackBox objects (with their pin sets) are heap cells too: dict.copy() is shallow, so a result legitimately shares the
+   BlackBox cells of its argument's registry (`vcell`); the first clause says that no listed function writes any of them.
+   The full statement, over the model: for every listed function, every store, every choice of argument objects
    (aliasing among them allowed), every execution -- returning or raising at any point *)
 Definition C19_full : Prop :=
   ∀ s h ls r h' e', call_of table s h ls r h' e' →
     (∀ l c, h !! l = Some c → h' !! l = Some c) ∧
     (∀ la l, la ∈ ls → reach h' la l ↔ reach h la l) ∧
     (r = false → ∀ rv lr, s_ret s = Some rv → e' !! rv = Some lr →
-       lr ∈ dom h' ∧ (∀ l, reach h' lr l → l ∉ dom h) ∧ (∀ la l, la ∈ ls → reach h' lr l → ¬ reach h' la l)).
+       lr ∈ dom h' ∧ (∀ l, reach h' lr l → l ∉ dom h ∨ vcell h' l) ∧ (∀ la l, la ∈ ls → reach h' lr l → reach h' la l → vcell h' l)).
 Theorem C19_frame_partial : C19_full.
 Proof. intros s h ls r h' e'. exact (frame table s h ls r h' e' C19_table_safe). Qed.
 Print Assumptions C19_frame_partial.
@@ -38,7 +40,8 @@ Theorem C19_argument_unchanged_partial : ∀ s h ls r h' e' la C,
 Proof. intros s h ls r h' e' la C. exact (argument_unchanged table s h ls r h' e' la C C19_table_safe). Qed.
 Print Assumptions C19_argument_unchanged_partial.
 
-(* later histories: any sequence of mutator steps applied to the result is invisible in the argument, and vice versa *)
+(* later histories: any sequence of Circuit/DiGraph/registry mutator steps (none of which writes inside a BlackBox) applied
+   to the result is invisible in the argument, and vice versa *)
 Theorem C19_independent_histories_partial : ∀ s h ls h' e' rv lr la,
   call_of table s h ls false h' e' → s_ret s = Some rv → e' !! rv = Some lr → la ∈ ls →
   (∀ h2, edits lr h' h2 → denote h2 la = denote h la) ∧ (∀ h2, edits la h' h2 → denote h2 lr = denote h' lr).
@@ -48,71 +51,99 @@ Print Assumptions C19_independent_histories_partial.
 (* the edits of the statement above include replacing the graph, the registry and the name of a circuit *)
 Theorem C19_edits_cover : ∀ h l n lg lb g' b' n',
   hclosed h → h !! l = Some (CCirc n lg lb) → (∃ g, h !! lg = Some (CGraph g)) → (∃ b, h !! lb = Some (CDict b)) →
+  (∀ k l', b' !! k = Some l' → vcell h l') →
   wstep h l (set_graph h l g') ∧ wstep h l (set_dict h l b') ∧ wstep h l (set_name h l n').
 Proof.
   intros. split_and!; [by eapply wstep_set_graph|by eapply wstep_set_dict|by eapply wstep_set_name].
 Qed.
 Print Assumptions C19_edits_cover.
 
-(* ---- non-vacuity.  copy() as it is written today, run on a concrete circuit whose registry is empty (so that the
-   constructor's "falsy argument" path is taken): the hypotheses of the theorems are satisfiable and the result
-   denotes the same circuit at a new address *)
+(* ---- non-vacuity.  copy() as it is written today, run on a concrete circuit with one flip-flop instance: the hypotheses
+   of the theorems are satisfiable; the result denotes the same circuit at new addresses and shares exactly the BlackBox cell *)
 Definition copy_like : summary := {| s_name := "copy"; s_params := ["self"]; s_ret := Some "r"; s_body := seqs [
   Do (PGetGraph "g1" "self"); Do (PCopyGraph "g2" "g1"); Do (PGetBbs "b1" "self"); Do (PCopyDict "b2" "b1");
   Do (PMkCircuit "c" (Some "g2") (Some "b2")); Do (PFrom "r" ["c"]) ] |}.
 Definition g0 : circuit := {[ "a" := mk_node Input false ∅ ]} ∪ {[ "g" := mk_node Not true {[ "a" ]} ]}.
-Definition h0 : heap := {[ 1%positive := CCirc "top" 2%positive 3%positive ]} ∪ {[ 2%positive := CGraph g0 ]} ∪ {[ 3%positive := CDict ∅ ]}.
+Definition ff : bbdef := {| bb_name := "ff"; bb_in := {[ "clk"; "d" ]}; bb_out := {[ "q" ]} |}.
+Definition h0 : heap := {[ 1%positive := CCirc "top" 2%positive 3%positive ]} ∪ {[ 2%positive := CGraph g0 ]} ∪
+                        {[ 3%positive := CDict {[ "u0" := 4%positive ]} ]} ∪ {[ 4%positive := CBb ff ]}.
 Example C19_copy_like_safe : table_safe [copy_like] = true.
 Proof. vm_compute. reflexivity. Qed.
+Lemma h0_lookup l c : h0 !! l = Some c →
+  (l = 1%positive ∧ c = CCirc "top" 2%positive 3%positive) ∨ (l = 2%positive ∧ c = CGraph g0) ∨
+  (l = 3%positive ∧ c = CDict {[ "u0" := 4%positive ]}) ∨ (l = 4%positive ∧ c = CBb ff).
+Proof.
+  unfold h0. intros Hl.
+  repeat (apply lookup_union_Some_raw in Hl as [Hl|[_ Hl]]); apply lookup_singleton_Some in Hl as [<- <-]; auto.
+Qed.
 Lemma h0_closed : hclosed h0.
 Proof.
-  intros l c l' Hl Hr. unfold h0 in *.
-  repeat (apply lookup_union_Some_raw in Hl as [Hl|[_ Hl]]); apply lookup_singleton_Some in Hl as [<- <-]; simpl in Hr;
-    try (by apply elem_of_nil in Hr).
-  rewrite !dom_union_L, !dom_singleton_L. set_solver.
+  intros l c l' Hl Hr. destruct (h0_lookup _ _ Hl) as [[-> ->]|[[-> ->]|[[-> ->]|[-> ->]]]]; simpl in Hr.
+  - split; [|done]. vm_compute. set_solver.
+  - by apply elem_of_nil in Hr.
+  - apply (elem_of_refs_dict {[ "u0" := 4%positive ]}) in Hr as [k Hk]. apply lookup_singleton_Some in Hk as [_ <-].
+    split; [vm_compute; set_solver|]. intros _. by exists ff.
+  - by apply elem_of_nil in Hr.
 Qed.
 Example C19_copy_like_runs : ∃ h' e' lr,
   call_of [copy_like] copy_like h0 [1%positive] false h' e' ∧ e' !! "r" = Some lr ∧ lr ∉ dom h0 ∧
-  denote h' lr = denote h0 1%positive ∧ denote h0 1%positive = Some {| c_name := "top"; c_g := g0; c_bbs := ∅ |}.
+  denote h' lr = denote h0 1%positive ∧ denote h0 1%positive = Some {| c_name := "top"; c_g := g0; c_bbs := {[ "u0" := ff ]} |}.
 Proof.
   set (e0 := bind_params ["self"] [1%positive]).
-  set (h1 := <[4%positive := CGraph g0]> h0).
-  set (h2 := <[5%positive := CDict ∅]> h1).
-  set (h3 := <[6%positive := CDict ∅]> h2).
-  set (h4 := <[7%positive := CCirc "top" 4%positive 6%positive]> h3).
-  set (e5 := <["c" := 7%positive]> (<["b2" := 5%positive]> (<["b1" := 3%positive]> (<["g2" := 4%positive]> (<["g1" := 2%positive]> e0))))).
+  set (h1 := <[5%positive := CGraph g0]> h0).
+  set (h2 := <[6%positive := CDict {[ "u0" := 4%positive ]}]> h1).
+  set (h4 := <[7%positive := CCirc "top" 5%positive 6%positive]> h2).
+  set (e5 := <["c" := 7%positive]> (<["b2" := 6%positive]> (<["b1" := 3%positive]> (<["g2" := 5%positive]> (<["g1" := 2%positive]> e0))))).
   exists h4, (<["r" := 7%positive]> e5), 7%positive.
   assert (g0 ≠ ∅) as Hg0. { intros H. assert (g0 !! "a" = None) as H' by (rewrite H; apply lookup_empty). vm_compute in H'. discriminate. }
+  assert (hclosed h1) as Hc1.
+  { apply hclosed_insert; [apply h0_closed|vm_compute; set_solver|by intros ? ?%elem_of_nil]. }
+  assert (vcell h1 4%positive) as Hv4 by (by exists ff).
+  assert (hclosed h2) as Hc2.
+  { apply hclosed_insert; [done|vm_compute; set_solver|]. intros l' [k Hk]%elem_of_refs_dict.
+    apply lookup_singleton_Some in Hk as [_ <-]. split; [left; by apply vcell_dom|done]. }
+  assert (hclosed h4) as Hc4.
+  { apply hclosed_insert; [done|vm_compute; set_solver|]. simpl. intros l' Hl'. split; [|done]. left.
+    repeat (apply elem_of_cons in Hl' as [->|Hl']); try (by apply elem_of_nil in Hl'); vm_compute; set_solver. }
   split_and!.
   - split_and!; [set_solver|apply h0_closed|intros l ->%elem_of_list_singleton; vm_compute; set_solver|].
     simpl. eapply ex_seq; [apply ex_do; eapply (st_get_graph _ _ _ _ 1%positive); reflexivity|].
-    eapply ex_seq; [apply ex_do; eapply (st_copy_graph _ _ _ _ 2%positive g0 4%positive); [reflexivity|reflexivity|vm_compute; set_solver]|].
+    eapply ex_seq; [apply ex_do; eapply (st_copy_graph _ _ _ _ 2%positive g0 5%positive); [reflexivity|reflexivity|vm_compute; set_solver]|].
     eapply ex_seq; [apply ex_do; eapply (st_get_bbs _ _ _ _ 1%positive); reflexivity|].
-    eapply ex_seq; [apply ex_do; eapply (st_copy_dict _ _ _ _ 3%positive ∅ 5%positive); [reflexivity|reflexivity|vm_compute; set_solver]|].
+    eapply ex_seq; [apply ex_do; eapply (st_copy_dict _ _ _ _ 3%positive {[ "u0" := 4%positive ]} 6%positive); [reflexivity|reflexivity|vm_compute; set_solver]|].
     eapply ex_seq.
-    { apply ex_do. eapply (st_mk_circuit _ _ _ _ _ 4%positive h2 6%positive h3 7%positive "top").
-      - eapply (pg_ref _ _ "g2" 4%positive g0); [reflexivity|reflexivity|done].
-      - eapply (pd_empty _ _ "b2" 5%positive 6%positive); [reflexivity|reflexivity|vm_compute; set_solver].
+    { apply ex_do. eapply (st_mk_circuit _ _ _ _ _ 5%positive h2 6%positive h2 7%positive "top").
+      - eapply (pg_ref _ _ "g2" 5%positive g0); [reflexivity|reflexivity|done].
+      - eapply (pd_ref _ _ "b2" 6%positive {[ "u0" := 4%positive ]}); [reflexivity|reflexivity|].
+        intros H. assert (({[ "u0" := 4%positive ]} : gmap string loc) !! "u0" = None) as H' by (rewrite H; apply lookup_empty).
+        by rewrite lookup_singleton in H'.
       - vm_compute; set_solver. }
     apply ex_do. apply st_from.
     + done.
-    + unfold h4, h3, h2, h1. repeat (apply hclosed_insert; [|simpl; intros ? Hx; repeat (apply elem_of_cons in Hx as [->|Hx]); try (by apply elem_of_nil in Hx); left; vm_compute; set_solver]).
-      apply h0_closed.
+    + done.
     + vm_compute; set_solver.
     + intros l' Hr. right. exists "c", 7%positive. split_and!; [set_solver|reflexivity|done].
   - reflexivity.
   - vm_compute. set_solver.
-  - reflexivity.
-  - reflexivity.
+  - apply (bool_decide_unpack _). by vm_compute.
+  - apply (bool_decide_unpack _). by vm_compute.
 Qed.
 
 (* the checker is not trivially true: the two aliasing variants of strip_io / relabel are rejected *)
 Definition strip_io_alias : summary := {| s_name := "strip_io"; s_params := ["c"]; s_ret := Some "r"; s_body := seqs [
   Do (PGetGraph "g" "c"); Loop (Do (PWrite "g")); Do (PGetBbs "b1" "c"); Do (PCopyDict "b2" "b1");
   Do (PMkCircuit "r" (Some "g") (Some "b2")) ] |}.
+(* C19-s4 in miniature: `x = bb.inputs(); x |= ...` on a BlackBox taken from the argument's registry *)
+Definition pins_inplace : summary := {| s_name := "f"; s_params := ["c"]; s_ret := None; s_body := seqs [
+  Do (PGetBbs "b" "c"); Do (PFrom "bb" ["b"]); Do (PAlias "x" "bb"); Do (PWriteVal "x") ] |}.
+(* ... while the same update of a set the call made itself is accepted *)
+Definition pins_fresh : summary := {| s_name := "f"; s_params := ["c"]; s_ret := None; s_body := seqs [
+  Do (PGetBbs "b" "c"); Do (PFrom "bb" ["b"]); Do (PRead "bb"); Do (PAllocVal "x"); Do (PWriteVal "x") ] |}.
 Definition relabel_alias : summary := {| s_name := "relabel"; s_params := ["c"]; s_ret := Some "r"; s_body := seqs [
   Do (PGetGraph "g1" "c"); Do (PRelabelCopy "g" "g1"); Do (PGetBbs "b1" "c"); Do (PMkCircuit "r" (Some "g") (Some "b1")) ] |}.
 Example C19_aliases_rejected :
+  safe_summary [pins_inplace] pins_inplace = false ∧ safe_summary [pins_fresh] pins_fresh = true ∧
+  predict [pins_inplace] "f" = (true, false) ∧
   safe_summary [strip_io_alias] strip_io_alias = false ∧ safe_summary [relabel_alias] relabel_alias = false ∧
   predict [strip_io_alias] "strip_io" = (true, true) ∧ predict [relabel_alias] "relabel" = (false, true).
 Proof. vm_compute. done. Qed.
